@@ -129,7 +129,7 @@ def project_result(v):
     return r
 
 
-def observe_conv(type_, nullable, is_none, text, via, exact=None):
+def observe_conv(type_, nullable, is_none, text, via, exact=None, raw=None):
     from clikit.api.args.format import Argument, Option
 
     ev = base_event("conv")
@@ -143,7 +143,10 @@ def observe_conv(type_, nullable, is_none, text, via, exact=None):
     else:
         obj = Argument("argument", TYPEBIT_ARG[type_] | (Argument.NULLABLE if nullable else 0) | junk)
     try:
-        ev["obs"]["res"] = project_result(obj.parse(None if is_none else text))
+        # raw = "int" / "float": the value itself (not its text form) is handed to parse(); the law is the same -
+        # a value of the declared type, equal to what the text form gives
+        given = None if is_none else int(text) if raw == "int" else float(text) if raw == "float" else text
+        ev["obs"]["res"] = project_result(obj.parse(given))
     except ValueError:
         ev["obs"]["res"] = dict(NORES, k="ValueError")
     except Exception as e:  # noqa
@@ -261,15 +264,23 @@ def run(ctx):
             text = str(v)
             if rng.random() < 0.25:
                 text = rng.choice([" ", "+", "00", ""]) + text + rng.choice(["", " ", "\n"])
-            ev = observe_conv("int", rng.random() < 0.5, False, text, rng.choice(["opt", "arg"]))
-            case = {"part": "conv", "type": "int", "nullable": ev["nullable"], "isNone": False, "text": text, "via": "opt"}
+            raw = "int" if text == str(v) and rng.random() < 0.3 else None
+            via = rng.choice(["opt", "arg"])
+            ev = observe_conv("int", rng.random() < 0.5, False, text, via, raw=raw)
+            case = {"part": "conv", "type": "int", "nullable": ev["nullable"], "isNone": False, "text": text, "via": via, "raw": raw}
         elif which == 1:  # dyadic float literals with their exact rational value
             num = rng.randint(-2 ** 20, 2 ** 20)
             den = 2 ** rng.randint(0, 9)
             f = Fraction(num, den)
             text = format_fraction(f)
-            ev = observe_conv("float", rng.random() < 0.5, False, text, rng.choice(["opt", "arg"]), exact=Fraction(text))
-            case = {"part": "conv", "type": "float", "nullable": ev["nullable"], "isNone": False, "text": text, "via": "opt", "exact": True}
+            raw = None
+            if rng.random() < 0.3:  # a number, not a text, handed to a FLOAT element: an int when integral, else the float
+                raw = "float"
+                if den == 1 and rng.random() < 0.7:
+                    raw, text = "int", str(num)
+            via = rng.choice(["opt", "arg"])
+            ev = observe_conv("float", rng.random() < 0.5, False, text, via, exact=Fraction(text), raw=raw)
+            case = {"part": "conv", "type": "float", "nullable": ev["nullable"], "isNone": False, "text": text, "via": via, "exact": True, "raw": raw}
         elif which == 2:  # any text through any type
             text = "".join(rng.choice("01-+_ .eEnulTtrfasyo9x") for _ in range(rng.randint(0, 6)))
             if rng.random() < 0.3:  # literals with a special meaning to Python's number parsers
@@ -318,7 +329,7 @@ def replay(ctx, path):
         ev = observe_name(c["role"], c["name"], c["nonStr"], c["cls"])
     else:
         ev = observe_conv(c["type"], c["nullable"], c["isNone"], c["text"], c["via"],
-                          exact=Fraction(c["text"]) if c.get("exact") else None)
+                          exact=Fraction(c["text"]) if c.get("exact") else None, raw=c.get("raw"))
     ctx.count()
     ctx.nontriv(1)
     ctx.nontriv(2)
